@@ -7,10 +7,10 @@ ID = 'C04'
 RULE = ('one record per history of {process, process_mut, seek/counter preset, clone} on a cipher context or {bytes<N>, fill_bytes, fill_slice, '
         'u32, u64} on the DRG; model = (key, nonce, absolute byte position); every output must equal input XOR keystream[pos..pos+len] '
         '(DRG: keystream only, whatever the destination held); involution histories re-encrypt the oracle ciphertext; distinct = '
-        '(variant, sequence of op kinds with offset/length classes)')
+        '(variant, sequence of op kinds with offset/length classes); in-place calls also go through arbitrarily aligned sub-slices of one buffer')
 ASSUMPTIONS = ['same keystream models as C03']
 FLOORS = {'evaluations': 2500, 'distinct': 1500,
-          'coverage': {'pm:off=mid:len>+64rem': 10, 'p:off=63:len=rem': 3, 'seek:off=mid': 10, 'clone:off=mid': 10,
+          'coverage': {'pm:off=mid:len>+64rem': 10, 'p:off=63:len=rem': 3, 'seek:off=mid': 10, 'clone:off=mid': 10, 'pms:short-piece-at-unaligned-address': 50,
                        'drg:fb:prior=nonzero:cross': 10, 'drg:fs:prior=nonzero:within': 10}}
 NS = [0, 1, 3, 4, 7, 8, 16, 31, 32, 33, 63, 64, 65, 100, 127, 128, 129, 255]
 LENS = [0, 1, 63, 64, 65, 100, 128, 129]
@@ -46,6 +46,15 @@ def history(rng, v, nsteps):
                 ln = (63 - off) % 64
             steps.append('%s.%d.%s' % ('p' if rng.below(2) else 'pm', ob, rng.data(ln)))
             pos[ob] += ln
+        elif r < 76:
+            # one buffer processed in place through arbitrarily aligned sub-slices (short pieces included)
+            n = rng.rng(1, 150)
+            cuts, left = [], n
+            while left > 0:
+                c = min(left, rng.choice([1, 1, 2, 3, 4, 5, 6, 7, 8, 9, 16, 61, 64, 65]))
+                cuts.append(c); left -= c
+            steps.append('pms.%d.%s.%d.%s' % (ob, rng.data(n), rng.below(16), ','.join(map(str, cuts))))
+            pos[ob] += n
         elif r < 85:
             n = rng.choice([0, 1, 2, 7, rng.below(1 << 20), (1 << 32) - 1, (1 << 32) - 2]) if bits == 32 else \
                 rng.choice([0, 1, 5, 0xffffffff, (rng.below(1 << 32) << 32) | 0xffffffff, (1 << 64) - 1, rng.below(1 << 64)])
